@@ -9,7 +9,7 @@ use heck::{ToSnakeCase, ToUpperCamelCase};
 use serde_json::json;
 use std::path::Path;
 
-const POSITIONS: [&str; 6] = ["response", "alias", "variable", "input_field", "oneof", "enum_value"];
+const POSITIONS: [&str; 8] = ["response", "alias", "variable", "input_field", "oneof", "enum_value", "frag_struct", "frag_variant"];
 
 fn pos_coq(p: &str) -> &'static str {
     match p {
@@ -18,8 +18,18 @@ fn pos_coq(p: &str) -> &'static str {
         "variable" => "PVariable",
         "input_field" => "PInputField",
         "oneof" => "POneOf",
+        "frag_struct" => "PFragStruct",
+        "frag_variant" => "PFragVariant",
         _ => "PEnumValue",
     }
+}
+
+fn frag_name_usable(n: &str, kws: &[String]) -> bool {
+    let mut cs = n.chars();
+    let first_ok = cs.next().map(|c| c.is_ascii_alphabetic()).unwrap_or(false);
+    first_ok && n.chars().all(|c| c.is_ascii_alphanumeric() || c == '_') && n != "on" && !kws.iter().any(|k| k == n)
+        && !["Self", "self", "crate", "super", "true", "false", "null", "union", "macro_rules", "dyn", "async", "await", "try", "gen"].contains(&n)
+        && !["Sub", "Other2", "Un", "Query", "Inp", "One", "En", "Q", "QZzsub", "QZzun", "QZzunOnSub", "QZzunOn", "Variables", "ResponseData", "Int", "ID", "String", "Float", "Boolean", "Box", "Option", "Vec", "Serialize", "Deserialize", "Result"].contains(&n)
 }
 
 fn valid_name(n: &str) -> bool {
@@ -38,6 +48,7 @@ fn benign(pos: &str) -> &'static str {
         "variable" => "plainvar",
         "input_field" => "plainin",
         "oneof" => "plainone",
+        "frag_struct" | "frag_variant" => "plainfrag",
         _ => "PLAINVAL",
     }
 }
@@ -53,11 +64,13 @@ fn program(name: &str, mask: &[&str]) -> (SchemaDoc, QueryDoc) {
     };
     let schema = SchemaDoc {
         defs: vec![
-            TypeDef::Object { name: "Sub".into(), implements: vec![], fields: vec![FieldDef::new("x", GType::named("Int"))] },
+            TypeDef::Object { name: "Sub".into(), implements: vec![], fields: vec![FieldDef::new("x", GType::named("Int")), FieldDef::new("y", GType::named("Int"))] },
+            TypeDef::Object { name: "Other2".into(), implements: vec![], fields: vec![FieldDef::new("z", GType::named("Int"))] },
+            TypeDef::Union { name: "Un".into(), members: vec!["Sub".into(), "Other2".into()] },
             TypeDef::Object {
                 name: "Query".into(),
                 implements: vec![],
-                fields: vec![FieldDef::new(&at("response"), GType::named("Int")), FieldDef::new("zzsub", GType::named("Sub"))],
+                fields: vec![FieldDef::new(&at("response"), GType::named("Int")), FieldDef::new("zzsub", GType::named("Sub")), FieldDef::new("zzun", GType::named("Un"))],
             },
             TypeDef::Input { name: "Inp".into(), fields: vec![(at("input_field"), GType::named("Int"))], one_of: false },
             TypeDef::Input { name: "One".into(), fields: vec![(at("oneof"), GType::named("Int"))], one_of: true },
@@ -66,8 +79,11 @@ fn program(name: &str, mask: &[&str]) -> (SchemaDoc, QueryDoc) {
         schema_block: None,
         input_defaults: vec![],
     };
+    // ONE fragment carries the name for both fragment positions (two fragments cannot share a name); it is
+    // spread next to another field of a struct and next to an inline fragment of a union variant
+    let frag_name = if mask.contains(&"frag_struct") || mask.contains(&"frag_variant") { name.to_string() } else { benign("frag_struct").to_string() };
     let doc = QueryDoc {
-        defs: vec![QDef::Op {
+        defs: vec![QDef::Frag { name: frag_name.clone(), on: "Sub".into(), sel: vec![Sel::field("y")] }, QDef::Op {
             kind: OpKind::Query,
             name: Some("Q".into()),
             vars: vec![
@@ -78,7 +94,8 @@ fn program(name: &str, mask: &[&str]) -> (SchemaDoc, QueryDoc) {
             ],
             sel: vec![
                 Sel::field(&at("response")),
-                Sel::Field { alias: None, name: "zzsub".into(), sub: vec![Sel::Field { alias: Some(at("alias")), name: "x".into(), sub: vec![] }] },
+                Sel::Field { alias: None, name: "zzsub".into(), sub: vec![Sel::Field { alias: Some(at("alias")), name: "x".into(), sub: vec![] }, Sel::Spread(frag_name.clone())] },
+                Sel::Field { alias: None, name: "zzun".into(), sub: vec![Sel::typename(), Sel::Inline { on: Some("Sub".into()), sub: vec![Sel::field("x")] }, Sel::Spread(frag_name.clone())] },
             ],
         }],
     };
@@ -102,6 +119,8 @@ fn observe(m: &RModule, pos: &str, name: &str, norm_rust: bool) -> String {
     match pos {
         "response" => fld("ResponseData", 0),
         "alias" => fld("QZzsub", 0),
+        "frag_struct" => fld("QZzsub", 1),
+        "frag_variant" => fld("QZzunOnSub", 1),
         "variable" => fld("Variables", 0),
         "input_field" => fld("Inp", 0),
         "oneof" => match find(m, "One") {
@@ -238,6 +257,10 @@ pub fn run(outdir: &Path, tier: &str, seed: u64, shards: usize, replay: Option<S
             .iter()
             .copied()
             .filter(|p| !(*p == "enum_value" && ["true", "false", "null"].contains(&name.as_str())))
+            // a fragment's name is also the name of its struct, used as written: the fragment positions are
+            // exercised with names that are identifiers and not keywords as they stand (Type, MATCH, Loop ...);
+            // `on` is not a fragment name in GraphQL
+            .filter(|p| !p.starts_with("frag_") || (frag_name_usable(name, &kws)))
             .collect();
         let opts = Opts { operation_name: Some("Q".into()), normalization_rust: *norm, ..Opts::default() };
         let gen = |mask: &[&str]| -> Outcome {
@@ -291,7 +314,7 @@ pub fn run(outdir: &Path, tier: &str, seed: u64, shards: usize, replay: Option<S
         outdir,
         shards,
         json!({
-            "rule": "every word of the translated keyword table and of the reference keyword list, plus near-misses, in 10 case styles; all names over {a,B,_,1} up to length 4 (thorough: 5); seeded random names; each at 6 name positions (response field, alias, variable, input field, @oneOf member, enum value) x normalization {none, rust}. Non-trivial = table keyword or not already snake_case.",
+            "rule": "every word of the translated keyword table and of the reference keyword list, plus near-misses, in 10 case styles; all names over {a,B,_,1} up to length 4 (thorough: 5); seeded random names; each at 8 name positions (response field, alias, variable, input field, @oneOf member, enum value, and — for names usable as a fragment name — the flattened member of a fragment spread in a struct and in a union variant) x normalization {none, rust}. Non-trivial = table keyword or not already snake_case.",
             "exhaustive": false,
             "distribution": dist,
             "samples": samples,
